@@ -54,6 +54,14 @@ pub fn mpqs(n: Uint, k: u32, prefs: &Preferences, tpool: Option<&rayon::ThreadPo
         .fb_size
         .unwrap_or(params::mpqs_fb_size(norig.bits(), use_double));
     let fbase = FBase::new(Int::cast_from(n), fb);
+    if let Err(e) = fbase.check_divisors() {
+        // A prime of the factor base divides n: it has a single root, which the sieve
+        // does not support for large primes. Return it as a divisor.
+        if prefs.verbose(Verbosity::Info) {
+            eprintln!("Unexpected divisor {} in factor base", e.0);
+        }
+        return vec![Uint::from(e.0)];
+    }
     if prefs.verbose(Verbosity::Info) {
         eprintln!("Smoothness bound {}", fbase.bound());
         eprintln!("Factor base size {} ({:?})", fbase.len(), fbase.smalls());
